@@ -22,6 +22,7 @@ GM_LOOP = ("        for cert in valid_certs:\n" + GM_EXPIRES + GM_PC +
            "            assert type(pc) == type(public_key), \"{} isn't {}\".format(type(pc), type(public_key))\n"
            "            if pc == public_key:\n                if expires > now:\n"
            "                    # not-expired\n                    return True\n        return False\n")
+GM_NOKEYS = "    if not keys:\n        return lambda: True\n"
 
 MUTANTS = [
     # ---- C32.1 ordering key
@@ -51,6 +52,12 @@ MUTANTS = [
       "storage_broker.get_servers_for_psi(storage_index, for_upload=True)", "storage_broker.get_servers_for_psi(storage_index)", "C32.3"),
     M("uploader-flag-false", UP,
       "storage_broker.get_servers_for_psi(storage_index, for_upload=True)", "storage_broker.get_servers_for_psi(storage_index, for_upload=False)", "C32.3"),
+    M("uploader-falls-back-to-known-servers", UP, "            all_servers[:(2 * total_shares)],\n",
+      "            (all_servers + [s for s in storage_broker.get_known_servers() if s not in all_servers])[:(2 * total_shares)],\n",
+      "C32.3", note="for_upload=True is still passed, but unfiltered servers are appended to the candidates"),
+    M("uploader-trackers-from-connected", UP, "            all_servers[:(2 * total_shares)],\n",
+      "            sorted(storage_broker.get_connected_servers(), key=lambda s: s.get_serverid())[:(2 * total_shares)],\n",
+      "C32.3", note="the filtered list is only used for the emptiness test"),
     M("publisher-second-reader", PUB, "    def _record_verinfo(self):\n",
       "    def _spare_server(self):\n        return self.full_serverlist[0]\n\n    def _record_verinfo(self):\n", "C32.3"),
     # ---- C32.4 mutable publisher
@@ -104,7 +111,23 @@ MUTANTS = [
       "    expires = datetime.fromisoformat(valid_certs[-1][\"expires\"]) if valid_certs else None\n\n    def validate():\n", "C32.6",
       edits=[(GM, "        for cert in valid_certs:\n" + GM_EXPIRES, "        for cert in valid_certs:\n")],
       note="same effect without a loop-carried variable: one expiry computed once by the factory"),
+    # ---- C32.7 which predicate the factory hands out
+    M("gm-no-keys-test-negated", GM, GM_NOKEYS, "    if keys:\n        return lambda: True\n", "C32.7",
+      note="sweep survivor (test-negate L451): with keys configured every server is permitted"),
+    M("gm-open-when-no-certs", GM, GM_NOKEYS, "    if not keys or not certs:\n        return lambda: True\n", "C32.7",
+      note="`nothing to verify` shortcut: a server announcing no certificate at all is permitted although keys are configured"),
+    M("gm-no-verifier-when-nothing-kept", GM, "        return False\n\n    return validate\n",
+      "        return False\n\n    if valid_certs:\n        return validate\n", "C32.7",
+      note="falls off the end when no certificate verified: None is read by upload_permitted() as `no verifier`"),
+    M("gm-keys-forgotten-without-certs", GM, "    valid_certs = []\n", "    valid_certs = []\n    keys = keys if certs else []\n", "C32.7",
+      note="the emptiness test is no longer about the configured keys"),
     # ---- benign
+    M("benign-gm-no-keys-returns-none", GM, GM_NOKEYS, "    if not keys:\n        return None\n", None,
+      note="sweep survivor (return-none L452): both upload_permitted() implementations answer True for a None verifier"),
+    M("benign-gm-no-keys-hoisted", GM, GM_NOKEYS,
+      "    unconfigured = len(keys) == 0\n    if unconfigured:\n        return lambda: True\n", None),
+    M("benign-gm-no-keys-else-branch", GM, GM_NOKEYS,
+      "    keys = list(keys)\n    if keys:\n        pass\n    else:\n        return lambda: True\n", None),
     M("benign-gm-expiry-prechecked", GM, GM_KEEP,
       "            if cert is not None:\n                checked = datetime.fromisoformat(cert[\"expires\"])\n"
       "                valid_certs.append(cert)\n", None,
@@ -136,6 +159,11 @@ MUTANTS = [
       "                if server.upload_permitted():\n                    serverlist.append((len(old_assignments.get(server, [])), i, serverid, server))\n", None),
     M("benign-permit-not-form", SC, HTTP_PERMIT,
       "        verifier = self._grid_manager_verifier\n        if not verifier:\n            return True\n        return verifier()\n\n    # Special methods used by copy.copy()", None),
+    M("benign-uploader-candidates-hoisted", UP, "            all_servers[:(2 * total_shares)],\n",
+      "            candidates,\n", None,
+      edits=[(UP, "        def _create_server_tracker(server, renew, cancel):\n",
+              "        wanted = min(len(all_servers), 2 * total_shares)\n        candidates = list(all_servers)[:wanted]\n\n"
+              "        def _create_server_tracker(server, renew, cancel):\n")]),
     M("benign-uploader-positional", UP,
       "storage_broker.get_servers_for_psi(storage_index, for_upload=True)", "storage_broker.get_servers_for_psi(storage_index, True)", None),
     # ---- vanished anchors
@@ -144,6 +172,12 @@ MUTANTS = [
     M("vanish-gm-predicate-loop", GM, "        for cert in valid_certs:\n" + GM_EXPIRES,
       "        for cert in list(reversed(valid_certs)):\n" + GM_EXPIRES, "ANALYSIS-ERROR",
       note="kept-list loop in a shape the rule does not follow: must not pass silently"),
+    M("vanish-gm-predicate-through-local", GM, GM_NOKEYS + "\n    if bad_cert is None:\n",
+      "    verifier = lambda: True\n    if bad_cert is None:\n", "ANALYSIS-ERROR",
+      edits=[(GM, "        return False\n\n    return validate\n",
+              "        return False\n\n    if valid_certs:\n        verifier = validate\n    return verifier\n")],
+      note="open predicate as the default, replaced only when some certificate verified (property-breaking): the shared "
+           "C33 helper no longer finds `return <nested predicate>`, so C32.6/C32.7 stop with exit 2 - must not pass silently"),
     M("vanish-make-storage-server", SC, "    def _make_storage_server(self, server_id, server):",
       "    def _make_storage_server2(self, server_id, server):", "ANALYSIS-ERROR"),
 ]
